@@ -319,6 +319,7 @@ def _clsname(fname):
 
 def _extract_postfix(model, P, table):
     owner, fn = model.require_method(f"{PARSER}:Parser", "parse_postfix")
+    fn = resolve_negation_helpers(model, fn)
     fn = model.inlined(fn)      # (private helpers are read as their bodies)
     chains = [s for s in fn.body if isinstance(s, ast.If)]
     if len(chains) != 1:
@@ -708,6 +709,53 @@ def _walk(v, depth=0):
             yield from _walk(x, depth + 1)
 
 
+def resolve_negation_helpers(model, fn):
+    """Calls `h(x)` of module-level one-argument helpers of the parser module
+    inside *fn* are judged by interpretation (pv/opjudge.py): a helper that is
+    `-x` for every operand is read as the unary minus it stands for; one that
+    negates some operands and not others is a violation."""
+    from .opjudge import judge_negation_helper
+    m = model.repo.module(PARSER)
+    helpers = {}
+    for st in m.tree.body:
+        if isinstance(st, ast.FunctionDef) and len(st.args.args) == 1 and \
+                not st.args.vararg and not st.args.kwarg:
+            helpers[st.name] = st
+    used = {c.func.id for c in ast.walk(fn) if isinstance(c, ast.Call)
+            and isinstance(c.func, ast.Name) and c.func.id in helpers
+            and len(c.args) == 1 and not c.keywords}
+    verdicts = {}
+    for name in sorted(used):
+        try:
+            is_neg, wit = judge_negation_helper(model, m, helpers[name])
+        except AnalysisError:
+            continue
+        if is_neg and wit:
+            raise ModelViolation(
+                f"T/parser/negation-helper/{name}",
+                f"pymbolic/parser.py:{helpers[name].lineno}",
+                f"{name}() stands for unary minus in {fn.name} but is not "
+                "the negation of every operand: " + "; ".join(wit[:2])
+                + " (the parser flattens -b*c into one product, so "
+                "'a - -b*c' loses c)")
+        verdicts[name] = is_neg and not wit
+    if not any(verdicts.values()):
+        return fn
+    import copy
+
+    class _R(ast.NodeTransformer):
+        def visit_Call(self, node):
+            self.generic_visit(node)
+            if isinstance(node.func, ast.Name) and verdicts.get(node.func.id) \
+                    and len(node.args) == 1 and not node.keywords:
+                return ast.copy_location(
+                    ast.UnaryOp(op=ast.USub(), operand=node.args[0]), node)
+            return node
+    out = _R().visit(copy.deepcopy(fn))
+    ast.fix_missing_locations(out)
+    return out
+
+
 def _classify_build(cls, args, ps):
     """how does the constructor combine left_exp and the right operand?"""
     def is_right(x):
@@ -743,6 +791,9 @@ def _classify_build(cls, args, ps):
             if len(items) == 2 and items[0] == ("star", ("attr", LEFT, "children")) \
                     and is_right(items[1]) and guarded_same:
                 return "SPLICE"
+            if len(items) == 2 and items[0] == ("star", ("attr", LEFT, "children")) \
+                    and is_neg_right(items[1]) and guarded_same:
+                return "SPLICE_NEG"
         if a[0] == "binop" and a[1] == "Add" and a[2] == ("attr", LEFT, "children") \
                 and a[3][0] == "lit" and len(a[3][2]) == 1 and guarded_same:
             if is_right(a[3][2][0]):
@@ -754,6 +805,7 @@ def _classify_build(cls, args, ps):
 
 def _extract_prefix(model, P, table):
     owner, fn = model.require_method(f"{PARSER}:Parser", "parse_prefix")
+    fn = resolve_negation_helpers(model, fn)
     fn = model.inlined(fn)      # (private helpers are read as their bodies)
     chains = [s for s in fn.body if isinstance(s, ast.If)]
     if len(chains) != 1:
@@ -899,6 +951,7 @@ def _prefix_with_terminal_shortcut(tag, pss, table):
 
 def _extract_terminals(model, P, table):
     owner, fn = model.require_method(f"{PARSER}:Parser", "parse_terminal")
+    fn = resolve_negation_helpers(model, fn)
     fn = model.inlined(fn)      # (private helpers are read as their bodies)
     chains = [s for s in fn.body if isinstance(s, ast.If)]
     branches, orelse = _chain(chains[0])
